@@ -528,6 +528,7 @@ class Type1TagMemoryReader(object):
         assert isinstance(tag, Type1Tag)
         self._data_from_tag = bytearray()
         self._data_in_cache = bytearray()
+        self._unconfirmed = set()
         self._tag = tag
         self._header_rom = bytearray(0)
         # read header_rom and static memory
@@ -578,18 +579,25 @@ class Type1TagMemoryReader(object):
             self._data_in_cache.extend(data)
 
     def _write_to_tag(self, stop):
+        # A write that fails may have been executed by the tag, the
+        # block or byte is written again by the next synchronize().
         hr0 = self._header_rom[0]
         if hr0 >> 4 == 1 and hr0 & 0x0F != 1:
             for i in range(0, stop, 8):
                 data = self._data_in_cache[i:i+8]
-                if data != self._data_from_tag[i:i+8]:
+                if (data != self._data_from_tag[i:i+8]
+                        or i in self._unconfirmed):
+                    self._unconfirmed.add(i)
                     self._tag.write_block(i//8, data)
+                    self._unconfirmed.discard(i)
                     self._data_from_tag[i:i+8] = data
         else:
             for i in range(0, stop):
                 data = self._data_in_cache[i]
-                if data != self._data_from_tag[i]:
+                if data != self._data_from_tag[i] or i in self._unconfirmed:
+                    self._unconfirmed.add(i)
                     self._tag.write_byte(i, data)
+                    self._unconfirmed.discard(i)
                     self._data_from_tag[i] = data
 
     def synchronize(self):
